@@ -1,9 +1,11 @@
 (* C04 - a stalled synchronized consumer stalls its producers (bounded buffering).
-   Local theorems about the two machines; the schedule-independent credit bound over the network
-   fragment is stated as C04_credit_bound_partial (see evidence: explored in pipeline mode). *)
+   Theorems about the two machines, for every input sequence: the sender-side credit bound (publishes to a
+   tracked synchronized client <= requests received from it), the gate, eviction, and that a consumer
+   issues requests only from recv().  How many requests are in flight when a consumer stalls depends on
+   the delay hypothesis and is measured in pipeline mode. *)
 From Coq Require Import ZArith List Bool Lia.
 From OF Require Import Base.Str Proto.Wire Proto.Receiver Proto.Receiver_Safety Proto.Receiver_Order Proto.Receiver_Quiet
-                       Proto.Sender Proto.Sender_Safety.
+                       Proto.Sender Proto.Sender_Safety Proto.Sender_Credit.
 Import ListNotations.
 Open Scope Z_scope.
 
@@ -28,6 +30,18 @@ Theorem C04_gate_needs_every_sync_client :
     forall y, In y (clients s1) -> c_eph y = 0 -> c_requested y = true.
 Proof. exact on_request_gate. Qed.
 Print Assumptions C04_gate_needs_every_sync_client.
+
+(* The credit bound, sender side: for a non-balanced publisher that is not pushing, over EVERY list of
+   send() calls, poll answers and requests from anybody (duplicated, stale, future ones included), the
+   number of publishes made while the synchronized client (kc, ku) is tracked never exceeds the number
+   of requests received from that client.  A consumer that stops asking therefore stops its producer after
+   the requests still in flight are used up - however long the run. *)
+Theorem C04_credit_bound :
+  forall kc ku nout required its,
+    Forall no_push_item its -> Forall (k_sync_item kc ku) its ->
+    (total_pub kc ku (init_sender nout false required) its <= total_req kc ku its)%nat.
+Proof. exact sender_credit_bound. Qed.
+Print Assumptions C04_credit_bound.
 
 (* silent clients leave the wait set only through CLOSE or after CONN_TIMEOUT *)
 Theorem C04_eviction_only_after_timeout :
